@@ -684,19 +684,28 @@ Definition rx_parts (o1 o2 o3 : list Z) (rs gs ps : list mol) (ur up : list Z * 
 Definition rx_ok o1 o2 o3 rs gs ps ur up exp centre truth : bool := all_true (rx_parts o1 o2 o3 rs gs ps ur up exp centre truth).
 Definition rx_part (k : nat) o1 o2 o3 rs gs ps ur up exp centre truth : bool := nth k (rx_parts o1 o2 o3 rs gs ps ur up exp centre truth) false.
 (* ReactionContainer.__format__ for the four combinations of !c and !x; the molecule-level facts the theorems assume *)
+Definition roles_eqb (a b : roles) : bool :=
+  match a, b with (x, y, z), (x', y', z') => list_eqb String.eqb x x' && list_eqb String.eqb y y' && list_eqb String.eqb z z' end.
 Definition fmol_okb (m : fmol) : bool :=
   let pcs := split_on "."%char (f_smi m) in
   (f_ncomp m =? Z.of_nat (List.length pcs)) && forallb (fun x => negb (String.eqb x ""%string) && negb (contains ">"%char x)) pcs.
 Definition fmt_parts (rs gs ps : list fmol) (e e_c e_x e_cx : string) : list bool :=
   [ String.eqb (rxn_format false false rs gs ps) e; String.eqb (rxn_format true false rs gs ps) e_c;
     String.eqb (rxn_format false true rs gs ps) e_x; String.eqb (rxn_format true true rs gs ps) e_cx;
-    forallb fmol_okb (rs ++ gs ++ ps) ].
+    forallb fmol_okb (rs ++ gs ++ ps);
+    (* end to end inside the model: the reader model on the whole string (CX block included) the writer model produces
+       returns the written roles and the written radical indices *)
+    pyres_eqb (pair_eqb (option_eqb roles_eqb) (list_eqb Z.eqb))
+      (read_rxn (fun x => Z.of_nat (String.length x)) true (rxn_format false false rs gs ps))
+      (match rs, gs, ps with
+       | [], [], [] => Err ValueError
+       | _, _, _ => Ok (Some (map f_smi (sort_by key_leb rs), map f_smi (sort_by key_leb gs), map f_smi (sort_by key_leb ps)),
+                        w_radicals (rxn_write false rs gs ps))
+       end) ].
 Definition fmt_ok rs gs ps e e_c e_x e_cx : bool := all_true (fmt_parts rs gs ps e e_c e_x e_cx).
 Definition fmt_part (k : nat) rs gs ps e e_c e_x e_cx : bool := nth k (fmt_parts rs gs ps e e_c e_x e_cx) false.
 Definition fmt1_ok (keep no_cx : bool) (rs gs ps : list fmol) (e : string) : bool := String.eqb (rxn_format keep no_cx rs gs ps) e.
 (* the reaction branch of smiles(): roles handed to the molecule parser, radical indices (as a sorted list) *)
-Definition roles_eqb (a b : roles) : bool :=
-  match a, b with (x, y, z), (x', y', z') => list_eqb String.eqb x x' && list_eqb String.eqb y y' && list_eqb String.eqb z z' end.
 Definition rd_ok (ignore : bool) (data : string) (exp : pyres (option roles * list Z)) : bool :=
   pyres_eqb (pair_eqb (option_eqb roles_eqb) (list_eqb Z.eqb))
             (match read_rxn (fun x => Z.of_nat (String.length x)) ignore data with Ok (r, rad) => Ok (r, zsort rad) | Err e => Err e end) exp.
@@ -724,7 +733,7 @@ def localise(name, cases, failing, nparts):
     return 'failing parts (case, part): ' + str([where[j] for j in bad])
 
 
-NPARTS = {'mc_ok': 4, 'rx_ok': 6, 'fmt_ok': 5}
+NPARTS = {'mc_ok': 4, 'rx_ok': 6, 'fmt_ok': 6}
 
 
 def cstr_any(text):
@@ -792,6 +801,17 @@ def small_space(ck, rng, full):
             m.atom(max(atoms)).is_radical = True
         return m
     out = []
+    if full:
+        # thorough: 6000 random pairs of graphs over atoms {1,2,3,4} with orders absent/1/2/3/4/8
+        for i in range(6000):
+            gs4 = []
+            for _ in range(2):
+                atoms = tuple(a for a in (1, 2, 3, 4) if rng.random() < 0.8)
+                pairs = list(itertools.combinations(atoms, 2))
+                gs4.append((atoms, {pr: rng.choice((None, None, 1, 1, 2, 3, 4, 8)) for pr in pairs}))
+            variant = rng.randrange(5)
+            shuffle = rng.random() < 0.5
+            out.append((('small4', variant, i, 0, shuffle), build(gs4[0], 0, shuffle), build(gs4[1], variant, shuffle)))
     for variant in range(5):
         for gi, g in enumerate(graphs):
             for hi, h in enumerate(graphs):
@@ -813,7 +833,7 @@ def corr_compose(ck, rxns):
         cases.append(f'mc_ok {zl(o1)} {zl(o2)} {zl(o3)} {mol_term(r)} {mol_term(p)} ({exp}) {centre}')
         meta.append(('mc', tok, r, p))
         ck.case(('mc',) + tok, nontrivial=h is not None and bool(h.center_atoms))
-        ck.count('compose:small:' + ('ValueError' if h is None else 'centre' if h.center_atoms else 'no centre'))
+        ck.count('compose:' + tok[0] + ':' + ('ValueError' if h is None else 'centre' if h.center_atoms else 'no centre'))
     # (2) molecule level: malformed / boundary pairs
     mal = []
     for smi_a, smi_b in (('CCO', 'CCN'), ('[13CH4]', 'C'), ('C', '[13CH4]'), ('[2H]O', '[H]O'), ('CC', 'C[Na]'), ('C', 'C'), ('CC', 'C=C'),
@@ -1226,6 +1246,17 @@ def run(ck):
                         'differing in radical state only; non-trivial = the reaction has a centre / the string has a role with > 1 molecule / a contraction. '
                         'compose additionally: all 1600 pairs of graphs on <= 3 atoms x 5 product variants (element / isotope clash -> ValueError); '
                         'reader: written strings, hand-made malformed strings, grammar-level synthetic strings and random mutations, each with ignore on and off')
+    # at most 5 replay files per class of counterexample (a broken compose fails on hundreds of inputs)
+    orig, per_class = ck.counterexample, {}
+
+    def limited(key, *a, **k):
+        cls = key.split(':')[0]
+        per_class[cls] = per_class.get(cls, 0) + 1
+        if per_class[cls] > 5 and ck.match_known(key) is None:
+            ck.count(f'counterexamples beyond the first 5 of class {cls} (not written)')
+            return True
+        return orig(key, *a, **k)
+    ck.counterexample = limited
     proved = common.standard_proof_steps(ck, translators=[])
     n = 300 if ck.tier == 'quick' else 3000
     rxns = gen_reactions(ck, n)
